@@ -290,11 +290,42 @@ func c09(c *ctx) {
 			if k == "store.lastCommitIDPrefix" && ver == "18446744073709551615" {
 				wroteLatest = true
 			}
-			if k == "$0.commitIDKey($1)" && ver == "$1" {
+			// the per-height record: key commitIDKey(v) written at that same v, v being setCommitID's version parameter
+			// (wherever it stands in the parameter list, and whether commitIDKey is a method or a function)
+			if isParamPath(ver) && strings.Contains(k, "commitIDKey(") && (strings.Contains(k, "("+ver+")") || strings.Contains(k, ","+ver+")")) {
 				wroteHeight = true
 			}
 		}
 		r.Check(wroteLatest, "R5/setCommitID/latest", c.p.Pos(setCommitID.Pos()), "writes lastCommitIDPrefix at lssVersion into the batch", "setCommitID no longer writes the latest commit id (lastCommitIDPrefix @ lssVersion) into the block's batch")
+		if !wroteHeight {
+			// the key function may have been folded or rewritten: what matters is that the per-height record is written
+			// under the key getCommitID reads, as a function of the version (writer/reader agreement)
+			if getCID := c.fnQuiet("store.(*Store).getCommitID"); getCID != nil {
+				tmpName := regexp.MustCompile(`@t[0-9]+|loopvar:t[0-9]+`)
+				norm := func(k, ver string) string {
+					return tmpName.ReplaceAllString(strings.ReplaceAll(k, ver, "$V"), "@t")
+				}
+				var readKeys []string
+				for _, cs := range callsIn(getCID, false, txnGet) {
+					for i, pa := range getCID.Params {
+						if i > 0 {
+							readKeys = append(readKeys, norm(c.p.path(argOf(cs, 0)), c.p.path(pa)))
+						}
+					}
+				}
+				for _, cs := range callsIn(setCommitID, false, vsSetAt) {
+					k, ver := c.p.path(argOf(cs, 0)), c.p.path(argOf(cs, 2))
+					if !isParamPath(ver) {
+						continue
+					}
+					for _, rk := range readKeys {
+						if strings.Contains(rk, "$V") && norm(k, ver) == rk {
+							wroteHeight = true
+						}
+					}
+				}
+			}
+		}
 		r.Check(wroteHeight, "R5/setCommitID/per-height", c.p.Pos(setCommitID.Pos()), "writes commitIDKey(version) at version", "setCommitID no longer writes commitIDKey(version) at that version")
 		readLatest := false
 		for _, cs := range callsIn(getLatest, false, txnGet) {
@@ -358,6 +389,20 @@ func c10(c *ctx) {
 	vsSetAt, vsDelAt := c.fn("store.(*VersionedStore).SetAt"), c.fn("store.(*VersionedStore).DeleteAt")
 	txnWrite := c.fn("store.(*Txn).write")
 	if vsSetAt != nil && vsDelAt != nil && txnWrite != nil {
+		// which parameter of Txn.write is the version: the one it hands to SetAt/DeleteAt (wherever it stands in the list)
+		wvIdx, okPass, nPass := -1, true, 0
+		instrs(txnWrite, func(in ssa.Instruction) {
+			if cc := callCommon(in); cc != nil && cc.IsInvoke() && (cc.Method.Name() == "SetAt" || cc.Method.Name() == "DeleteAt") {
+				nPass++
+				pa, isParam := cc.Args[len(cc.Args)-1].(*ssa.Parameter)
+				if !isParam || pa.Parent() != txnWrite || (wvIdx >= 0 && paramIndex(pa) != wvIdx) {
+					okPass = false
+					return
+				}
+				wvIdx = paramIndex(pa)
+			}
+		})
+		wvPath := fmt.Sprintf("$%d", wvIdx)
 		for _, f := range c.p.Funcs {
 			if pkgShort(f) != "store" || isTestFile(c.p, f.Pos()) {
 				continue
@@ -374,30 +419,20 @@ func c10(c *ctx) {
 				switch {
 				case p == "18446744073709551615":
 					ok, why = true, "latest-state sentinel"
-				case enc == "(*store.Store).setCommitID" && p == "$1":
-					ok, why = true, "the commit's own (next) version"
+				case enc == "(*store.Store).setCommitID" && isParamPath(p) && p != "$0":
+					ok, why = true, "the commit's own (next) version (setCommitID's version parameter)"
 				case enc == "(*store.VersionedStore).Set" || enc == "(*store.VersionedStore).Delete":
 					ok, why = p == "$0.version", "the versioned store's configured version"
 				case enc == "(*store.Store).Rollback":
 					ok, why = true, "offline rollback"
-				case enc == "(*store.Txn).write" && p == "$2":
+				case enc == "(*store.Txn).write" && wvIdx >= 0 && p == wvPath:
 					ok, why = true, "the writeVersion parameter (its provenance is checked by the pass-through obligations)"
 				}
 				r.Check(ok, "R1/versioned-write/"+enc, c.p.Pos(cs.Pos()), "writes at "+p+" ("+why+")", enc+" writes at version "+p+", which is neither the latest-state sentinel, the commit's next version nor part of the offline rollback")
 			}
 		}
-		// Txn.write passes its writeVersion parameter through to the TxnWriterI
-		okPass := true
-		n := 0
-		instrs(txnWrite, func(in ssa.Instruction) {
-			if cc := callCommon(in); cc != nil && cc.IsInvoke() && (cc.Method.Name() == "SetAt" || cc.Method.Name() == "DeleteAt") {
-				n++
-				if p := c.p.path(cc.Args[len(cc.Args)-1]); p != "$2" {
-					okPass = false
-				}
-			}
-		})
-		r.Check(okPass && n >= 2, "R1/Txn.write/version-pass-through", c.p.Pos(txnWrite.Pos()), "SetAt/DeleteAt receive the writeVersion parameter", "Txn.write no longer forwards its writeVersion parameter to SetAt/DeleteAt")
+		// Txn.write passes its version parameter through to the TxnWriterI
+		r.Check(okPass && nPass >= 2 && wvIdx >= 0, "R1/Txn.write/version-pass-through", c.p.Pos(txnWrite.Pos()), "SetAt/DeleteAt receive the writeVersion parameter", "Txn.write no longer forwards its writeVersion parameter to SetAt/DeleteAt")
 		// every write of a Txn goes out at the Txn's own writeVersion / the versions flushTo() names — whether Commit calls
 		// write directly or through a helper (flush) that passes its version parameter on
 		txnCommit := c.fn("store.(*Txn).Commit")
@@ -436,7 +471,7 @@ func c10(c *ctx) {
 					continue
 				}
 				nW++
-				ok, why := versionOK(enclosing(site.Caller), argOf(site.Site, 1), 0)
+				ok, why := versionOK(enclosing(site.Caller), argOf(site.Site, wvIdx-1), 0)
 				r.Check(ok, "R1/Txn.Commit/flush-version", c.p.Pos(site.Site.Pos()), "writes at "+why, fnName(enclosing(site.Caller))+" writes a Txn's operations at version "+why+" instead of the Txn's writeVersion / the versions named by flushTo()")
 			}
 			r.Check(nW >= 1, "R1/Txn.write/callers", c.p.Pos(txnWrite.Pos()), "Txn.write is called", "Txn.write has no caller any more (rule needs re-reading)")
@@ -508,7 +543,7 @@ func c10(c *ctx) {
 		if cc := callCommon(in); cc != nil && cc.IsInvoke() && cc.Method == newROm {
 			nTM++
 			p := c.p.path(cc.Args[0])
-			r.Check(strings.Contains(p, "$1"), "R3/TimeMachine/height", c.p.Pos(in.Pos()), "NewReadOnly("+p+")", "TimeMachine opens the read-only view at "+p+", which does not derive from the requested height")
+			r.Check(requestedHeight(p), "R3/TimeMachine/height", c.p.Pos(in.Pos()), "NewReadOnly("+p+")", "TimeMachine opens the read-only view at "+p+", which does not derive from the requested height")
 		}
 	})
 	r.Check(nTM >= 1, "R3/TimeMachine/uses-NewReadOnly", c.p.Pos(timeMachine.Pos()), "TimeMachine builds a read-only view", "TimeMachine no longer builds its view with NewReadOnly")
@@ -554,7 +589,7 @@ func (c *ctx) ruleReadOnlyIsolated(R string) {
 		return
 	}
 	shared := map[string]string{"log": "logger", "db": "the database handle (reads go through fresh snapshots)", "metrics": "metrics sink", "config": "immutable configuration", "version": "a number, compared only"}
-	re := regexp.MustCompile(`\$0\.([A-Za-z_][A-Za-z0-9_]*)`)
+	re := regexp.MustCompile(`\$0\.([A-Za-z_][A-Za-z0-9_]*)(\(?)`)
 	n := 0
 	instrs(newRO, func(in ssa.Instruction) {
 		fv, base, val := storeField(in)
@@ -573,6 +608,9 @@ func (c *ctx) ruleReadOnlyIsolated(R string) {
 		pth := c.p.path(val)
 		var borrowed []string
 		for _, m := range re.FindAllStringSubmatch(pth, -1) {
+			if m[2] == "(" {
+				continue // a method call on the live store, not one of its components (helpers it builds the view with are looked through)
+			}
 			if _, ok := shared[m[1]]; !ok {
 				borrowed = append(borrowed, m[1])
 			}
@@ -867,4 +905,23 @@ func (c *ctx) ruleRollbackPrunesAllPrefixes(R string) {
 			"the live store writes versioned data under "+w+" ("+written[w]+") but Store.Rollback does not hand that prefix to pruneVersionWindow: versions written by the abandoned heights survive the rollback (for the commitment tree: the root after a rollback depends on the abandoned history)")
 	}
 	r.Check(len(ws) >= 3, R+"/Rollback/written-prefixes", c.p.Pos(rollback.Pos()), fmt.Sprintf("%d written prefixes found: %s", len(ws), strings.Join(ws, ", ")), fmt.Sprintf("only %d written prefixes found (rule needs re-reading)", len(ws)))
+}
+
+// isParamPath: the rendered path is a bare parameter ($k).
+func isParamPath(p string) bool {
+	if len(p) < 2 || p[0] != '$' {
+		return false
+	}
+	for _, ch := range p[1:] {
+		if ch < '0' || ch > '9' {
+			return false
+		}
+	}
+	return true
+}
+
+// requestedHeight: the path derives from TimeMachine's height parameter; the only other value it
+// may take is the machine's own height (the clamp of 0 and of heights beyond the tip).
+func requestedHeight(p string) bool {
+	return strings.Contains(p, "$1") && allAlts(p, func(a string) bool { return strings.Contains(a, "$1") || strings.Contains(a, "$0.height") })
 }
